@@ -35,11 +35,10 @@ ESC_STEP_FLOOR = 0.002  # ... once a run takes 2 ms (a 300-character literal: ~0
 ESC_NOISE = 0.00005
 GROWTH_MIN = 0.020  # growth-ratio rule: both times at least 20 ms ...
 GROWTH_MAX = 8.0  # ... then t(4n) <= 8 t(n)  (linear 4, n log n < 5, quadratic 16)
-# parse() of a directive-heavy file builds an AST of tens of MB whose pages are
-# first touched in every run; on a loaded VM that adds a noisy, more than
-# proportional share (8.2 x was seen on a tree whose only change was in the
-# hex-float regex), so there the limit sits between that and quadratic (16)
-GROWTH_MAX_BIG_AST = 10.0
+# (parse() of a big file builds an AST of tens of MB; before the timings moved
+# into the time server - see mc/family.py - first-touch page faults made such
+# runs read 8-14 x for 4 x the input and this limit had to be looser)
+GROWTH_MAX_BIG_AST = 8.0
 CLEAR_EXCESS = 10.0  # a measurement this far over its limit is not contention
 
 
@@ -368,7 +367,7 @@ def eval_timed_repeat(name):
     """A repetition family timed through parse() at large k (work that is
     neither a Python call nor a builtin container call - string slicing and
     concatenation, a while loop over a chain - shows only here): 50 x the linear
-    extrapolation from the smallest k, and t(4k) <= 10 t(k) once both >= 20 ms."""
+    extrapolation from the smallest k, and t(4k) <= 8 t(k) once both >= 20 ms."""
     rows = []
     t0 = None
     for k in F.timed_repeat_sizes(name):
@@ -376,6 +375,9 @@ def eval_timed_repeat(name):
         try:
             r = F.parse_time(text, repeat=2, run_limit=60.0)
         except RecursionError:
+            rows.append([k, len(text), None, "rec"])
+            return {"name": name, "status": "rec", "rows": rows, "why": "recursion limit"}
+        if r[0] == "timeout" and r[1] == "recursion limit":
             rows.append([k, len(text), None, "rec"])
             return {"name": name, "status": "rec", "rows": rows, "why": "recursion limit"}
         if r[0] == "timeout":
@@ -849,7 +851,8 @@ def run(tier):
         if len(ok_rows) > 1 and ok_rows[0][2]:
             timed_worst.append((round(max(b[2] / a[2] for a, b in zip(ok_rows, ok_rows[1:])), 2), r["name"]))
         if r["status"] not in ("linear", "rec"):
-            R.fail(f"repeat-time:{r['name']}" if r["status"] == "slow" else f"{r['status']}:timed:{r['name']}",
+            group = "adjacent_string_literals" if "string_concat" in r["name"] else r["name"]
+            R.fail(f"repeat-time:{group}" if r["status"] == "slow" else f"{r['status']}:timed:{r['name']}",
                    {"timed_repeat": r["name"]},
                    {"family": r["name"], "why": r["why"], "rows[k,len,seconds,accepted]": r["rows"]})
     timed_worst.sort(reverse=True)
@@ -1003,7 +1006,8 @@ def run(tier):
         "decided each bad family (both exactly reproducible; re-measured once per family); loops that make no calls (scope-stack "
         "lookup, _type_modify_decl's chain walk) and the time spent inside `re` are invisible to it - "
         "the latter is covered by the timed lexer families",
-        "lexer timings are taken after an untimed warm-up run with malloc told to keep freed memory, "
+        "all timings run in a child interpreter with PYTHONMALLOC=malloc (the time server), "
+        "after an untimed warm-up run and with malloc told to keep freed memory, "
         "so that first-touch page faults (tens of MB of regex mark stack for a 16 KB unterminated "
         "character constant) are not mistaken for work",
         "a timed lexer run under 5 ms is never counted as slow",
@@ -1032,7 +1036,7 @@ def run(tier):
         "distinct_nontrivial = accepted members of families whose step count strictly grew with the size "
         "parameter (the size really drove the parser) + lexer members that produced at least one token or "
         "error. Timed repetition families: repetition constructs through parse() at k = 512, 2048, 8192 "
-        "(256, 1024, 4096 for 1 KB items), t(4k) <= 10 t(k) once both >= 20 ms. Run families: for every constant kind and identifier-like prefix a long run that almost "
+        "(256, 1024, 4096 for 2 KB items), t(4k) <= 8 t(k) once both >= 20 ms. Run families: for every constant kind and identifier-like prefix a long run that almost "
         "matches a longer rule (0x+hex*n, ..+'.', ..+'p', 0b.., digits+'e+', every integer-suffix prefix, "
         "L*n, u8.., _*n, $*n ...), bare on the lexer and embedded as `int x = <run>;` through parse(), at "
         "2^10, 2^12, 2^14, 2^16 characters: the 50 x / 2 s rules plus the growth rule t(4n) <= 8 t(n) once "
